@@ -665,10 +665,10 @@ def check_perdomain_multi(ctx, M, jnp, rng, C, L, bname):
   if D > 1 and rng.rand() < 0.5:     # leave at least one domain empty
     empty = int(rng.randint(D))
     exs = [(y, p, np.int32((empty + 1) % D) if d == empty else d) for y, p, d in exs]
-  if bname == 'CrossEntropyLoss' and C >= 2 and rng.rand() < 0.6 and exs[0][1] is not None:
+  if bname == 'CrossEntropyLoss' and C >= 2 and rng.rand() < 0.6 and exs[-1][1] is not None:
     # finite but extreme scores: the base loss of this ONE example overflows to inf in float32; the slices of all other
     # domains must be untouched by it (a select, not 0 * inf)
-    y0, p0, d0 = exs[0]
+    y0, p0, d0 = exs[-1]   # merged LAST: MeanStat.new would sanitise a NaN row whose weight is still 0
     # target score -3e38, every other score +3e38: only the TARGET's log-probability underflows to -inf, so the base
     # loss is exactly +inf (not NaN, which 0 * -inf on a non-target class would give)
     p_ext = np.full_like(np.asarray(p0, np.float32), np.float32(3e38))
@@ -676,7 +676,7 @@ def check_perdomain_multi(ctx, M, jnp, rng, C, L, bname):
     pe = p_ext.reshape(len(yy), C)
     for t in range(len(yy)):
       pe[t, int(yy[t])] = np.float32(-3e38)
-    exs[0] = (y0, pe.reshape(np.asarray(p0).shape), d0)
+    exs[-1] = (y0, pe.reshape(np.asarray(p0).shape), d0)
     ctx.count('pdslice:overflowing-example')
   doms = [int(d) for _, _, d in exs]
   wit = {'metric': a, 'C': C, 'L': L, 'domains': doms, 'targets': [e[0] for e in exs], 'scores': [e[1] for e in exs]}
